@@ -190,6 +190,20 @@ def gen(seed, tier):
             else:
                 blocks.append(block(r, 'fp', 50, me, gf_command(r.choice([126996, 126464, 126993, 59392, 127250, 65300]), 8, [(1, [1])])))
         cases.append(case(cfg, ops_of(blocks)))
+    # E2. installation descriptions in UCS-2 (type 0) whose UTF-8 form ends at / around the 70-byte limit of the library's field buffer with
+    #     a 1-, 2- or 3-byte character: the conversion into the 71-byte buffer must cut on a character boundary and stay inside
+    lasts = ['A', '\u00e4', '\u6c34']
+    combos = [(n, c) for n in (66, 67, 68, 69, 70, 71) for c in lasts] + [(r.randrange(0, 80), r.choice(lasts)) for _ in range(4 if not thorough else 60)]
+    for k in range(0, len(combos), 3):
+        blocks = []
+        for n, c in combos[k:k + 3]:
+            fill = ''.join(r.choice(['x', 'y', '\u00f6', '\u6d77']) if r.random() < 0.15 else chr(r.randrange(65, 91)) for _ in range(n))
+            # the ASCII-only variant puts the last character exactly at UTF-8 offset n
+            txt = (fill if r.random() < 0.3 else 'Z' * n) + c + r.choice(['', '', 'tail', '\u6c34\u6c34'])
+            f = r.choice([1, 2])
+            blocks.append(block(r, r.choice(['fp', 'tp']), 50, 22, gf_command(126998, 8, [(f, varstr(txt.encode('utf-16-le'), typ=0))])))
+            blocks.append(['M', iso_request(51, 22, 126998), 'P', 'T 3', 'P'])
+        cases.append(case(cfg1, ops_of(blocks)))
     # heartbeat: request then the periodic heartbeat states the interval
     for iv, off in [(1000, 0xffff), (5000, 100), (60000, 6000), (0xfffffffe, 0), (2500, 0)] + ([(r.randrange(1000, 60001), r.choice([0, 0xffff, r.randrange(6001)])) for _ in range(20)] if thorough else []):
         cases.append(case(node(extra=' hb=1'), ops_of([block(r, 'fp', 50, 22, gf_request(126993, iv, off), wait=False)]) + ['T %d' % (min(iv, 60000) + 7000), 'P', 'T %d' % min(iv, 60000), 'P']))
